@@ -24,6 +24,12 @@ var witnesses = []witness{
 		[]string{"CREATE TABLE t0 (c0 INT NOT NULL, c1 INT, PRIMARY KEY (c0))", "INSERT INTO t0 VALUES (0,NULL),(2,1)"},
 		"SELECT x1.c0 FROM t0 x1 WHERE ((x1.c1,x1.c0) NOT IN ((7,0),(1,3)))",
 		"SELECT x1.c0 FROM t0 x1 WHERE (NOT (((x1.c1 = 7) AND (x1.c0 = 0)) OR ((x1.c1 = 1) AND (x1.c0 = 3))))"},
+	// same region, other symptom: a NULL literal as a component makes the hashed form fail with
+	// 'value not nil: 0' (the compare type of the component is taken from the NULL literal)
+	{idHashTuple,
+		[]string{"CREATE TABLE t0 (c0 INT NOT NULL, c1 INT, PRIMARY KEY (c0))", "INSERT INTO t0 VALUES (0,0)"},
+		"SELECT x1.c0 FROM t0 x1 WHERE ((NULL,x1.c0) NOT IN ((NULL,NULL),(0,NULL)))",
+		"SELECT x1.c0 FROM t0 x1 WHERE (NOT (((NULL = NULL) AND (x1.c0 = NULL)) OR ((NULL = 0) AND (x1.c0 = NULL))))"},
 }
 
 // TestC06Known re-confirms the witnesses of the findings of this property: a listed finding
